@@ -233,6 +233,10 @@ var c12HdrInputs = []string{
 }
 
 func checkC12(r *Run) {
+	if r == nil {
+		r = &Run{Tier: "quick"}
+		defer func() { recover() }() // registration only: stop at the first use of the (absent) run context
+	}
 	r.Assume = []string{"operations: one call on every prefix length of every menu input (completed / suspended at any byte / failed), then Reset or Init; BFS over distinct post-reset states (full-state key incl. caller arrays)",
 		"a post-reset state whose full key equals a new object's is clean by construction; every other (dirty) state is tested on every menu input one-shot and with every single cut against a new object",
 		"chunked abandon (several calls before abandoning) reaches the same states as one call by C01/C02"}
@@ -313,7 +317,7 @@ func checkC12(r *Run) {
 	regC12(tkSp)
 	regC12(upSp)
 	regC12(uhSp)
-	if r == nil {
+	if r.Col == nil {
 		return
 	}
 	historyBFS(r, ctSp)
